@@ -8,16 +8,16 @@ Section Syn.
 
   (** groups are transparent at any depth *)
   Lemma expr_from_expr_strip e : expr_from_expr reparse e = expr_from_expr reparse (strip_groups e).
-  Proof. induction e as [i l | i g IH | | | ]; try reflexivity. exact IH. Qed.
+  Proof. induction e as [i l | i g IH | | | | ]; try reflexivity. exact IH. Qed.
   Lemma path_from_expr_strip e : path_from_expr reparse e = path_from_expr reparse (strip_groups e).
-  Proof. induction e as [i l | i g IH | | | ]; try reflexivity. exact IH. Qed.
+  Proof. induction e as [i l | i g IH | | | | ]; try reflexivity. exact IH. Qed.
   Lemma ident_from_expr_strip e : ident_from_expr reparse e = ident_from_expr reparse (strip_groups e).
-  Proof. induction e as [i l | i g IH | | | ]; try reflexivity. exact IH. Qed.
+  Proof. induction e as [i l | i g IH | | | | ]; try reflexivity. exact IH. Qed.
   Lemma expr_type_from_expr_strip g k e :
     k <> "group" ->
     expr_type_from_expr reparse g k e = expr_type_from_expr reparse g k (strip_groups e).
   Proof.
-    intros NG. induction e as [i l | i x IH | | | ]; try reflexivity.
+    intros NG. induction e as [i l | i x IH | | | | ]; try reflexivity.
     cbn [strip_groups]. rewrite <- IH. cbn [expr_type_from_expr expr_type_name].
     unfold str_eqb. destruct (String.eqb_spec "group" k); [congruence|reflexivity].
   Qed.
@@ -28,7 +28,7 @@ Section Syn.
     expr_from_expr reparse e = Ok (VToks (i_toks (einfo (strip_groups e)))).
   Proof.
     intros H. rewrite expr_from_expr_strip. pose proof (strip_groups_not_group e) as G.
-    destruct (strip_groups e) as [i l | i g | i p | i es | i k] eqn:E; try reflexivity.
+    destruct (strip_groups e) as [i l | i g | i p | i es | i k | i nl] eqn:E; try reflexivity.
     - destruct l; try reflexivity. exfalso. eapply H; eauto.
     - exfalso. eapply G; eauto.
   Qed.
@@ -76,7 +76,7 @@ Section Syn.
     path_from_expr reparse e = Err (unexpected_expr_type (strip_groups e)).
   Proof.
     intros HL HP. rewrite path_from_expr_strip. pose proof (strip_groups_not_group e) as G.
-    destruct (strip_groups e) as [i l | i g | i p | i es | i k] eqn:E; try reflexivity.
+    destruct (strip_groups e) as [i l | i g | i p | i es | i k | i nl] eqn:E; try reflexivity.
     - exfalso. eapply HL; eauto.
     - exfalso. eapply G; eauto.
     - exfalso. eapply HP; eauto.
@@ -170,7 +170,7 @@ Section Helpers.
     parse_str_literal m = preserve_str_literal m.
   Proof.
     intros H. destruct m as [ | | | | i p e]; try reflexivity.
-    destruct e as [j l | | | | ]; try reflexivity.
+    destruct e as [j l | | | | | ]; try reflexivity.
     destruct l; try reflexivity. exfalso. eapply H; eauto.
   Qed.
 End Helpers.
